@@ -50,6 +50,7 @@ UnfinishedAt == {p \o ":" \o LocClass(pc[p]) : p \in Unfinished}
 Matched ==
   \/ Is("feed")   /\ RmFeed /\ fed' = Ev.a /\ Adv
   \/ Is("rclose") /\ RmClose /\ Adv
+  \/ Is("sibwire") /\ SbWrite /\ Adv
   \/ Is("rd")     /\ (NgReadVer \/ NgReadLoop \/ IhRead) /\ rdn' = Ev.a /\ Adv
   \/ Is("wire") /\ Ev.b = "version"    /\ NgWriteOk("wver", "version", AfterWver) /\ Adv
   \/ Is("wire") /\ Ev.b = "sendaddrv2" /\ nego >= AddrV2PV /\ NgWriteOk("wsa", "sendaddrv2", "wva") /\ Adv
